@@ -210,3 +210,30 @@ Theorem C01_sim_case2_correct : forall c reuse strip k s0 s1,
   | None => build_stems c strip (List.length (c_lines c) + 3 + List.length (s_nodes c) + List.length (s_nodes c)) = None
   end.
 Proof. exact KV.Proofs.LogicSimGlue.sim_case2_correct. Qed.
+
+(** ---- source tie of the scheduler: the op-building loop of sim.SimOps.__init__, translated from the CURRENT source by
+    translate/gen_simops.py (Gen/SimOpsSrc.v, section ops_src), produces exactly the op list of the hand model [build_ops] on which
+    the theorems above are stated -- for EVERY netlist; each row is extended by the a_ctrl row of its output index.  The side
+    conditions say that the (normalised) a_ctrl table has a row for every connected output line and the scratch slot: outside them
+    the source raises IndexError.  circuit.topological_order() / circuit.s_nodes are the existing models [topo_order] / [s_nodes]. *)
+From KV Require Import Model.SimOpsSrcLib Gen.SimOpsSrc.
+From KV Require Proofs.SimOpsSrcProofs.
+Theorem C01_simops_ops_source_is_model : forall c actrl strip,
+  (forall n l, In (Some l) (n_outs (get_node c n)) -> l < List.length actrl) ->
+  List.length (c_lines c) + 1 < List.length actrl ->
+  simops_ops_src c actrl strip = Some (map (row_of_sop actrl) (build_ops c strip)).
+Proof. exact KV.Proofs.SimOpsSrcProofs.ops_source_is_model. Qed.
+
+(** for a well-formed netlist and ANY a_ctrl argument (None, one row per line, or lines+3 rows; pinned normalisation a_ctrl_norm) *)
+Theorem C01_simops_ops_source_is_model_wf : forall c given strip, wf_netlist c ->
+  let actrl := a_ctrl_norm given (List.length (c_lines c) + 3) in
+  simops_ops_src c actrl strip = Some (map (row_of_sop actrl) (build_ops c strip)) /\
+  option_map (map sop_of_row) (simops_ops_src c actrl strip) = Some (build_ops c strip).
+Proof. exact KV.Proofs.SimOpsSrcProofs.ops_source_is_model_wf. Qed.
+
+(** the hypotheses hold and the translated loop runs on a concrete netlist: input a, b -> AND2 g -> fork -> output y, DFF q(QN used) *)
+Theorem C01_simops_ops_source_nonvacuous :
+  option_map (map sop_of_row) (simops_ops_src KV.Proofs.SimOpsSrcProofs.ex_src_net (a_ctrl_norm None 9) false) = Some (build_ops KV.Proofs.SimOpsSrcProofs.ex_src_net false) /\
+  List.length (build_ops KV.Proofs.SimOpsSrcProofs.ex_src_net false) = 7 /\
+  option_map (@List.length _) (simops_ops_src KV.Proofs.SimOpsSrcProofs.ex_src_net (a_ctrl_norm None 9) true) = Some 5.
+Proof. exact KV.Proofs.SimOpsSrcProofs.ops_source_example. Qed.
